@@ -172,7 +172,7 @@ def setup_event(sc):
                           dyt=[[int(v) for v in row[i0:i1]] for row in (sc.get("dyarr") or [[sc["dy"]] * sc["imax"]] * sc["jmax"])[j0:j1]],
                           mask=[row[i0:i1] for row in M[j0:j1]]),
                 kill=sc["kill"], freeze=sc.get("freeze", []), killfarm=sc.get("killfarm", []), out=dict(ops=sc["ops"], numrec=sc["numrec"], sparse=sc["layout"] == "sparse", pvars=sc["pvars"],
-                         proto=list(os.path.splitext(sc.get("outname", "out.nc"))[0])),
+                         proto=list(os.path.splitext(sc.get("outname", "out.nc"))[0]), drop=list(sc.get("out_drop", []))),
                 scal=dict(has=bool(sc["hasscal"]), N=int(sc["N"]),
                           frames=[((t - sc["start"]) // sc["dt"]) * (-1 if sc["rev"] else 1) for t in sc["ftimes"]],
                           fnum=[int(f) for f in (sc.get("frame_numbers") or range(len(sc["ftimes"])))]),      # number the field formula was given
@@ -197,6 +197,8 @@ def config(sc, work, plug=PLUG):
               [("pid", "i4"), ("X", "f8"), ("Y", "f8"), ("Z", "f8"), ("age", "i4"), ("farm", "i4")]}
     if sc["hasscal"]:
         out_iv["temp"] = dict(encoding=dict(datatype="f8"), attributes={})
+    for v in sc.get("out_drop", []):          # state variables that are NOT written (the output holds exactly the configured ones)
+        out_iv.pop(v)
     conf = dict(
         version=2,
         time=dict(module=plug % "time", start=iso(sc["start"]), stop=iso(sc["stop"]), dt=sc["dt"]),
@@ -331,7 +333,7 @@ def _rec(t, arr, sl, ivars):
 
     def ii(a):
         return [int(round(v)) if np.isfinite(v) else NEG for v in np.asarray(a, float)]
-    r = dict(time=t, pid=ii(arr["pid"][sl]), x=qq(arr["X"][sl]), y=qq(arr["Y"][sl]), z=qq(arr["Z"][sl]))
+    r = dict(time=t, pid=ii(arr["pid"][sl]), x=qq(arr["X"][sl]), y=qq(arr["Y"][sl]), z=qq(arr["Z"][sl]) if "Z" in arr else [])
     for v in ivars:
         if v in ("lon", "lat"):       # degrees relative to (5, 60), quantum 2^-20
             a = np.asarray(arr[v][sl], float) - (5.0 if v == "lon" else 60.0) if v in arr else np.array([])
@@ -340,7 +342,7 @@ def _rec(t, arr, sl, ivars):
             r[v] = ii(arr[v][sl]) if v in arr else []
     # bit-for-bit clauses: a digest of the raw float64 bytes of (X, Y, Z[, temp]) per particle instance
     import hashlib
-    cols = [np.asarray(arr[v][sl], dtype="<f8") for v in ("X", "Y", "Z") + (("temp",) if "temp" in arr else ())]
+    cols = [np.asarray(arr[v][sl], dtype="<f8") for v in ("X", "Y", "Z", "temp") if v in arr]
     r["hx"] = [hashlib.sha256(b"".join(c[k].tobytes() for c in cols)).hexdigest()[:12] for k in range(len(r["pid"]))]
     return r
 
